@@ -14,7 +14,7 @@ from checks import common as c
 from checks import topogen as tg
 
 CHAINS = ['F80', 'F200', 'F460', 'F1000', 'F80_F60', 'F40_U_F30', 'U_F60', 'F80_E_F70', 'Efull_F100_Efull', 'Etype_F100_Egain',
-          'Evoa_F90_Edp', 'F200att', 'F100lumped', 'F80perfreq', 'R80_E', 'F80_R80', 'F0.05', 'Evoa_F100', 'Evoa_F70_F70', 'F200pmd']
+          'Evoa_F90_Edp', 'F200att', 'F100lumped', 'F80perfreq', 'R80_E', 'F80_R80', 'R30_U_F10', 'F0.05', 'Evoa_F100', 'Evoa_F70_F70', 'F200pmd']
 SIMS = {
     'default': {},
     'raman_p2': {'raman_params': {'flag': True, 'method': 'perturbative', 'order': 2, 'result_spatial_resolution': 10e3,
@@ -33,7 +33,16 @@ SIMS = {
 }
 SPACE = dict({'graph': ['P2', 'P3', 'TRI'], 'chain': CHAINS, 'chain_rev': ['F80', 'F200', 'F40_U_F30', 'Evoa_F90_Edp'],
               'eq': ['test', 'example'], 'sim': list(SIMS), 'voa_auto': [0, 1], 'dpr': [[0, 0, 0.5], [-2, 3, 0.5], [-1, 1, 0.1]],
-              'rounds': [2, 1, 3]}, **tg.SPAN_SPACE)
+              'rounds': [2, 1, 3],
+              # ROADM settings given by the operator: node-level equalisation policy, per-degree targets of each kind (on
+              # every degree that starts with an operator-placed amplifier), amplifier restrictions
+              'roadm': ['plain', 'node_psd', 'node_psw', 'deg_pch', 'deg_psd', 'deg_psw', 'restrict']}, **tg.SPAN_SPACE)
+E_FIRST = ('Efull_F100_Efull', 'Etype_F100_Egain', 'Evoa_F90_Edp', 'Evoa_F100', 'Evoa_F70_F70')
+
+
+def space_ok(x):
+    # a per-degree target needs a degree that exists in the input document (an operator-placed first amplifier)
+    return tg.consistent(x) and (not x['roadm'].startswith('deg') or x['chain'] in E_FIRST or x['chain_rev'] in E_FIRST)
 
 
 def chain(kind):
@@ -53,7 +62,32 @@ def topology(case):
         else:
             fwd, rev = chain(['F80', 'F80_E_F70', 'F40_U_F30'][k % 3]), chain(['F80', 'F120'][k % 2])
         ls.append((a, b, fwd, rev))
-    return c.build_topology(sites, ls)
+    return c.build_topology(sites, ls, roadm_params=roadm_settings(case.get('roadm', 'plain'), sites, ls))
+
+
+def roadm_settings(kind, sites, ls):
+    if kind == 'plain':
+        return None
+    out = {}
+    for s in sites:
+        # degrees of this site that the input document names: chains that start with an amplifier
+        degs = [f'{x}>{y}:0:Edfa' for a, b, fwd, rev in ls for x, y, ch in ((a, b, fwd), (b, a, rev))
+                if x == s and ch and ch[0]['type'] == 'Edfa']
+        p = {}
+        if kind == 'node_psd':
+            p = {'target_psd_out_mWperGHz': 2.5e-4}
+        elif kind == 'node_psw':
+            p = {'target_out_mWperSlotWidth': 1.6e-4}
+        elif kind == 'restrict':
+            p = {'restrictions': {'preamp_variety_list': ['std_low_gain', 'std_medium_gain'],
+                                  'booster_variety_list': ['std_medium_gain']}}
+        elif degs:
+            key, val = {'deg_pch': ('per_degree_pch_out_db', -18.5), 'deg_psd': ('per_degree_psd_out_mWperGHz', 2.0e-4),
+                        'deg_psw': ('per_degree_psd_out_mWperSlotWidth', 1.3e-4)}[kind]
+            p = {key: {d: val for d in degs}}
+        if p:
+            out[s] = {'params': p}
+    return out or None
 
 
 def sim_json():
@@ -261,7 +295,12 @@ def run_case(case):
         prev = doc0
         for r in range(case['rounds']):
             from gnpy.tools.convert_legacy_yang import yang_to_legacy
-            reloaded = yang_to_legacy(json.loads(json.dumps(prev)))     # what load_network() does with a saved file
+            try:
+                reloaded = yang_to_legacy(json.loads(json.dumps(prev)))     # what load_network() does with a saved file
+            except Exception as exc:  # noqa
+                v(f'exported-design-cannot-be-loaded:{type(exc).__name__}', f'round {r + 1}: the export is rejected by the loader: '
+                  f'{str(exc)[:300]}')
+                break
             try:
                 netr, equipment_r, docr = design_doc(reloaded, eq, sim)
             except Exception as exc:  # noqa
@@ -324,6 +363,8 @@ def run_case(case):
         if raman_in_topo:
             tags['raman-estimate-ran'] = 1
         tags['sim:' + case['sim']] = 1
+        if case.get('roadm', 'plain') != 'plain' and any(e['type'] == 'Roadm' and e.get('params') for e in topo['elements']):
+            tags['roadm:' + case['roadm']] = 1
     finally:
         c.set_sim_params({})
     return {'violations': viol[:6], 'transitions': transitions, 'traces': 0 if viol else 1, 'nontrivial': bool(tags), 'tags': tags,
@@ -332,8 +373,9 @@ def run_case(case):
 
 def main(rep, tier, seed):
     sp = engine.Space(SPACE, bases=[{}, {'graph': 'P3', 'chain': 'R80_E', 'sim': 'raman_p2', 'eq': 'example', 'EOL': 1.5},
-                                    {'chain': 'F1000', 'max_length': 90, 'mode': 'gain', 'voa_auto': 1}],
-                      constraint=tg.consistent)
+                                    {'chain': 'F1000', 'max_length': 90, 'mode': 'gain', 'voa_auto': 1},
+                                    {'graph': 'P3', 'chain': 'Etype_F100_Egain', 'chain_rev': 'Evoa_F90_Edp', 'roadm': 'deg_psw'}],
+                      constraint=space_ok)
     d = 2 if tier == 'quick' else 3
     bases = engine.pick_bases(sp.bases, seed, tier, n_quick=2)
     cases = [{k: x[k] for k in SPACE} for x in sp.enumerate(d, bases=bases)]
@@ -351,5 +393,6 @@ def main(rep, tier, seed):
                        'ran the Raman estimate.')
     rep.assumptions += ['designs that abort with an error are not judged here (C08 judges them); their SimParams state is recorded']
     rep.require(rep.tags.get('hashseed-inputs', 0) == len(HASH_INPUTS), 'hash-seed designs did not all run')
-    for k in ('design-inserted-elements', 'raman-estimate-ran', 'sim:raman_p2'):
+    for k in ('design-inserted-elements', 'raman-estimate-ran', 'sim:raman_p2', 'roadm:node_psw', 'roadm:deg_psw', 'roadm:deg_psd',
+              'roadm:deg_pch', 'roadm:restrict'):
         rep.require(rep.tags.get(k, 0) >= 1, f'{k} never observed')
